@@ -46,6 +46,8 @@ TEMPLATES = [
     ('ester-hydrolysis', '[C:1](=[O:2])[O;D2:3][C;z1:4]', '[A:1](=[A:2])[A:3]', {}, ('deleted-fragment',)),
     ('amide-hydrolysis', '[C;z2:1](=[O:2])[N;D2,D3;z1:3]', '[A:1](=[A:2])[O:4]', {}, ('deleted-fragment', 'new-atom')),
     ('ester-keep-alcohol-side', '[C:1](=[O:2])[O;D2:3][C;M:4]', '[A:1](=[A:2])[A:3]', {}, ('masked',)),
+    ('delete-chain-of-adjacent-atoms', '[C;z1:1][N:2][C:3]=[O:4]', '[A:1]', {}, ('deleted-fragment',)),
+    ('delete-adjacent-pair-keep-both-ends', '[C:1][S:2](=[O:3])[C:4]', '[A:1].[A:4]', {}, ('deleted-fragment',)),
     ('dehalogenate-keep-rest', '[C;a:1][Cl,Br:2]', '[A:1]', {}, ('deleted',)),
     ('carbonyl-reduction', '[C:1]=[O;D1:2]', '[A:1]-[A:2]', {}, ('order-change',)),
     ('alkene-hydrogenation', '[C;z2:1]=[C;z2:2]', '[A:1]-[A:2]', {}, ('order-change',)),
@@ -73,7 +75,7 @@ TEMPLATES = [
     ('radical-formation', '[C;z1;h3:1][C:2]', '[A:1][A:2] |^1:0|', {}, ('radical',)),
 ]
 
-TARGETED = ['C1OC1C', 'CC1OC1C', 'C[C@H]1O[C@@H]1C', 'C1OC1c1ccccc1', 'CC1(C)OC1C', 'C1OC1CC=C', 'CC(O)CCl', 'OC(C)CBr', 'C[C@H](O)CCl', 'OC(CBr)c1ccccc1',
+TARGETED = ['C(C)(=O)N(C)CC', 'CCN(C)C(C)=O', 'CC(=O)N(CC)C', 'O=C(CC)N(C)C(C)C', 'CCC(=O)N(CC)c1ccccc1', 'CCS(=O)C(C)C', 'C1OC1C', 'CC1OC1C', 'C[C@H]1O[C@@H]1C', 'C1OC1c1ccccc1', 'CC1(C)OC1C', 'C1OC1CC=C', 'CC(O)CCl', 'OC(C)CBr', 'C[C@H](O)CCl', 'OC(CBr)c1ccccc1',
             'C1NC1C', 'CC1NC1CC', 'CN1CC1C', 'CC(=O)[O-]', '[O-]C(=O)c1ccccc1', '[O-]C(=O)CCC([O-])=O', 'C[N+](C)(C)[O-]', '[O-][n+]1ccccc1', 'C[NH3+]', 'CC[NH+](C)C',
             '[NH3+]CC([O-])=O', 'CC[O-]', 'C[O-].[Na+]', '[CH2-]C', 'C[CH-]C', 'CC(O)N', 'C[C@H](O)N', 'C[C@@H](O)N', 'CCC(O)NC', 'CC(O)(N)CC', 'C[C@](O)(N)CC',
             'NC(O)C1CC1', 'OC(N)c1ccccc1', 'CC(Cl)C(C)O', 'ClCC(O)C1CCCCC1', 'CC(O)C(C)=O', 'C[C@H](O)C(=O)O', 'OCC1OC1', 'C1OC1C1CO1',
